@@ -122,19 +122,15 @@ Proof.
     destruct (restrict (keys c) a); [discriminate | reflexivity].
 Qed.
 
-(* ---------- C20, retrieval: the full statement is FALSE of the faithful model ---------- *)
-(* Full statement (property C20): for every well-formed history and lookup,
-     Permutation (ic_retrieve (impl s) l) (spec_retrieve ks (spec s) l).
-   Refuted: a level holding both the wildcard and a concrete key — the wildcard branch is preferred
-   and the concrete sibling is skipped. *)
+(* ---------- C20, retrieval: the former counter-example ---------- *)
+(* At the pinned commit retrieval preferred the wildcard branch of a level and skipped its concrete siblings (and vice versa):
+   on this history a retrieval with the empty lookup returned one entry of two - the full statement of C20 was refuted by it
+   (known finding C20-wildcard-preference).  After the repair of /repo (retrieve follows every branch that agrees with the
+   lookup) both entries come back; the general theorems are in IndexedCache_Sound.v / IndexedCache_Perm.v. *)
 Definition refute_keys : list key := [1; 2].
 Definition refute_ops : list op := [OIns [(1, 0)] 7; OIns [(2, 0)] 8].
-Theorem retrieve_complete_refuted :
-  exists ks ops l,
-    forallb (op_ok ks) ops = true /\
-    let s := state_after ks ops in
-    ~ Permutation (ic_retrieve (impl s) l) (spec_retrieve ks (spec s) l).
-Proof.
-  exists refute_keys, refute_ops, []. split; [reflexivity|].
-  intros s P. apply Permutation_length in P. vm_compute in P. discriminate.
-Qed.
+Example former_witness_complete :
+  forallb (op_ok refute_keys) refute_ops = true /\
+  let s := state_after refute_keys refute_ops in
+  Permutation (ic_retrieve (impl s) []) (spec_retrieve refute_keys (spec s) []).
+Proof. split; [reflexivity|]. vm_compute. apply Permutation_refl. Qed.
